@@ -166,10 +166,16 @@ Consistent(r) ==
   /\ (r.sbase_st = "" => ~r.sbase_st_ok /\ r.sbase_plugs = <<>>) /\ (~r.sbase_st_ok => r.sbase_plugs = <<>>)
   /\ (~r.sbase_ok => r.sbase_st = "")
   /\ (r.act \notin {"ReserveBase", "ChargingBase"} => ~r.sbase_ok)
+  /\ (r.range_zero => ~r.soc_lim /\ ~r.full)
+  /\ (r.at_home => (r.cant_home <=> r.range_zero))            \* no distance to cover: out of reach only with no range at all
+  /\ (~r.at_home /\ r.range_zero /\ r.home_ok => r.cant_home)
 
 TableInit == (AutoRow(F) \/ AvailRow(F) \/ UnavailRow(F)) /\ Consistent(F) /\ l = 0
 TableNext == UNCHANGED <<F, l>>
 TableSpec == TableInit /\ [][TableNext]_<<F, l>>
+
+\* every row is printed, to be built with real objects and put to the real driver (hv/policy_replay.py)
+ExportedRow == PrintT(<<"ROW", ToJson(F)>>)
 
 \* sanity laws of the table itself
 T_Total == Expected(F) # {}
